@@ -104,11 +104,15 @@ class Acc:
                     "stats": dict(self.stats), "nontrivial": False})
         return out
 
-def session_params(rng, i, bs):
+def session_params(rng, i, bs, big=False):
     """the session matrix, sampled: session 0 is always whole input / large capacity"""
     if i == 0:
         return {"chunking": "whole", "cap": "large", "skip": False, "stable": False, "contig": False, "dstnull": 0.0}
-    caps = CAPS if bs <= 65536 else ["1", "7", "large", "rand", "bs", "bs-1"]
+    caps = CAPS if not big else ["mid", "mid", "large", "bs", "bs-1"]
+    if bs > 65536 and not big:
+        ch = rng.choice(F.CHUNKINGS)
+        return {"chunking": ch, "cap": rng.choice(caps if ch in ("whole", "hdr") else ["1", "7", "small"]), "skip": rng.random() < 0.3,
+                "stable": rng.random() < 0.3, "contig": rng.random() < 0.25, "dstnull": rng.choice([0.0, 0.0, 0.0, 0.15])}
     return {"chunking": rng.choice(F.CHUNKINGS), "cap": rng.choice(caps), "skip": rng.random() < 0.3,
             "stable": rng.random() < 0.3, "contig": rng.random() < 0.25, "dstnull": rng.choice([0.0, 0.0, 0.0, 0.15])}
 
@@ -152,10 +156,13 @@ def check_sessions(st, acc, rng, data, nsess, bs=65536, hlen=7, dict_=None, expe
     orc = st["oracle"]
     ref = None
     results = []
+    big = total_out > 3000 or len(data) > 3000
     for i in range(nsess):
-        p = session_params(rng, i, bs)
+        p = session_params(rng, i, bs, big)
         r = one_session(st, acc, rng, data, p, bs, hlen, dict_, multi, total_out)
         v = r["verdict"]
+        if v == "toolong":
+            continue
         if v == "corr":
             acc.fail("corr_fail", "model/code disagree: " + str(r["what"]), detail(data, p, r, dict_))
             return None
@@ -185,7 +192,12 @@ def check_sessions(st, acc, rng, data, nsess, bs=65536, hlen=7, dict_=None, expe
         if r.get("pos", 0) > hlen or len(r.get("frames", [])) > 0:
             acc.keys.add(key)
         # complete => specification
-        if v == "complete" and not multi:
+        if v == "complete" and not multi and len(data) >= 4 and (struct.unpack("<I", data[:4])[0] & 0xFFFFFFF0) == F.SKIP0:
+            # skippable frame: magic, 4-byte size, that many bytes; no content
+            if len(data) < 8 or r["pos"] != 8 + struct.unpack("<I", data[4:8])[0] or r["out"] != b"":
+                acc.fail("prop_fail", "skippable frame not skipped exactly", detail(data, p, r, dict_))
+                return None
+        elif v == "complete" and not multi:
             sp = F.spec_frame(orc, data, dict_ or b"", skip=p["skip"])
             if sp is None:
                 acc.fail("prop_fail", "frame reported complete but the specification rejects it", detail(data, p, r, dict_))
@@ -300,6 +312,7 @@ def k_multi(st, acc, rng, case):
         p = session_params(rng, i, 65536)
         r = one_session(st, acc, rng, data, p, 65536, 7, None, multi=True, total_out=sum(map(len, outs)))
         v = r["verdict"]
+        if v == "toolong": continue
         if v == "corr":
             acc.fail("corr_fail", "model/code disagree: " + str(r["what"]), detail(data, p, r)); return
         if v in ("prop", "noprogress"):
@@ -322,12 +335,11 @@ def k_big(st, acc, rng, case):
     bs = F.BSIZE[bsid]
     ref = None
     for i in range(4):
-        p = {"chunking": rng.choice(["whole", "rand", "hint", "hdr"]), "cap": rng.choice(["bs-1", "bs", "large", "rand", "7"] if i else ["large"]),
+        p = {"chunking": rng.choice(["whole", "rand", "hint", "hdr"]), "cap": rng.choice(["bs-1", "bs", "large", "mid", "mid"] if i else ["large"]),
              "skip": rng.random() < 0.2, "stable": rng.random() < 0.5, "contig": rng.random() < 0.5, "dstnull": 0.0}
-        if p["cap"] == "7": p["chunking"] = "whole"
-        if p["cap"] == "7" and len(content) > 200000: p["cap"] = "bs-1"
         r = one_session(st, acc, rng, fr, p, bs, meta["hlen"], dict_, False, len(content))
         v = r["verdict"]
+        if v == "toolong": continue
         if v == "corr":
             acc.fail("corr_fail", "model/code disagree: " + str(r["what"]), detail(fr, p, r, dict_)); return
         if v in ("prop", "noprogress"):
